@@ -77,6 +77,7 @@ fn run_case(salt: i64, len: Option<usize>, ops: &[Op], st: &mut Stream) -> Outco
         if n > 0 { obs.push(' '); }
         // a failing case is reported with the prefix up to the failing operation (replay stays short)
         let ct = || case_text(salt, len, &ops[..=n]);
+        mark(0, &ct());
         let pulls_before = log.borrow().len();
         let lagging = or.live_ids().iter().any(|&i| or.cursor(i) < pulls_before);
         let ret: String = match *op {
